@@ -211,7 +211,8 @@ func runC18(c *core.Ctx) {
 	ruleUIDReadBack(c)
 
 	// ------------------------------------------------------------ registration
-	c.Doc("C18.registration", "RegisterTo of composite types registers every component type", 4)
+	c.Doc("C18.registration", "RegisterTo of composite types registers every component type; the printer registers what it printed on every successful path", 4)
+	ruleRegistrationOnEveryPath(c, "C18.registration")
 	ruleRegisterComponents(c)
 
 	// ------------------------------------------------------------ total
@@ -371,6 +372,49 @@ func ruleRegisterComponents(c *core.Ctx) {
 			}
 		}
 		c.Check(bad == "", rule, key, fn.Pos(), "every component type is registered", bad)
+	}
+}
+
+// ruleRegistrationOnEveryPath: in the IDL printer, a function that registers
+// the types it has printed (X.RegisterTo(set)) does so on every path on which it
+// succeeds: an early return for a "simple" case (a method returning nothing)
+// that skips the registration leaves a struct that is only used there without
+// its `struct … end` block, and the text does not parse back.
+func ruleRegistrationOnEveryPath(c *core.Ctx, rule string) {
+	n := 0
+	for _, fn := range srcFuncsOfPkg(c, "meta/idl") {
+		if fn.Parent() != nil || hasErrorResult(fn.Signature) < 0 {
+			continue
+		}
+		var regs []ssa.Instruction
+		for _, call := range core.Calls(fn) {
+			cc := call.Common()
+			if cc.IsInvoke() && cc.Method.Name() == "RegisterTo" {
+				if _, plain := call.(*ssa.Call); plain && loopHeaderOf(call.(ssa.Instruction)) == nil {
+					regs = append(regs, call.(ssa.Instruction))
+				}
+			}
+		}
+		if len(regs) == 0 {
+			continue
+		}
+		for i, rg := range regs {
+			n++
+			key := fmt.Sprintf("%s/registers#%d", core.FuncKey(fn), i+1)
+			bad := ""
+			for _, ret := range core.Returns(fn) {
+				if !successReturn(ret) {
+					continue
+				}
+				if !core.MustPassBefore(fn, ret, func(x ssa.Instruction) bool { return x == rg }) {
+					bad = "a successful return (at " + c.Pos(ret.Pos()) + ") is reached without this registration: the types printed on that path are referenced by name in the IDL but their struct blocks are never written, so the text does not parse back to the same signatures"
+				}
+			}
+			c.Check(bad == "", rule, key, rg.Pos(), "every successful path registers the type", bad)
+		}
+	}
+	if n == 0 {
+		c.Undecided(rule, "meta/idl", token.NoPos, "no registration of printed types found in the IDL printer")
 	}
 }
 
